@@ -547,7 +547,8 @@ Fixpoint processTLVs (rnd : list N) (tlvs : list stlv) (x : skey) (acc : list st
           let prev := c_msgState c in
           modify (fun c => (c <| c_lastMsgStateChange := None |> <| c_msgState := c_finished |> <| c_smp := smp_wiped |> <| c_ake := None |> <| c_keys := keyctx_empty |> <| c_version := 0 |>)) ;;;
           (if prev =? c_encrypted then event (evSec c_GoneInsecure) else ret tt) ;;;
-          processTLVs rnd r x acc
+          (* the loop ends here: records behind the disconnect have no session to be processed in (fix in /repo) *)
+          ret (inl acc)
       | TExtraKey usage data => event evKey ;;; processTLVs rnd r x acc
       | TSmp ty pl =>
           LET c <- get IN
